@@ -254,8 +254,31 @@ func judgeEdit(r *mon.Rec, idx int) {
 			return
 		}
 		want := append([]string{}, names...)
-		kind := rng.IntN(6)
+		kind := rng.IntN(7)
 		switch kind {
+		case 6: // the smallest edit: one octet of one name becomes a near neighbour (other letter case, another high
+			// octet, the next code point); names are octet strings, any difference is a change
+			i := rng.IntN(len(want))
+			if want[i] == "" {
+				return
+			}
+			b := []byte(want[i])
+			k := rng.IntN(len(b))
+			if b[k] == '.' {
+				return
+			}
+			switch c := b[k]; {
+			case c >= 'a' && c <= 'z' || c >= 'A' && c <= 'Z':
+				b[k] = c ^ 0x20
+			case c >= 0x80:
+				b[k] = c ^ 0x01
+			case c+1 == '.':
+				b[k] = c + 2
+			default:
+				b[k] = c + 1
+			}
+			want[i] = string(b)
+			l.Labels[i] = want[i]
 		case 0: // replace one element in place
 			i := rng.IntN(len(want))
 			want[i] = genName(rng)
